@@ -384,8 +384,10 @@ def run(ctx) -> dict:
     from .c13_unicode import r13_3
     from .c13_unicode import r13_4
     from .c13_unicode import r13_6
+    from .c13_unicode import r13_7
     results = [r12_1(ctx, counts), r12_2(ctx, counts), r13_3(ctx, counts), r12_4(ctx, counts),
-               r13_4(ctx, counts), r12_5(ctx, counts), r13_6(ctx, counts)]
+               r13_4(ctx, counts), r12_5(ctx, counts), r13_6(ctx, counts),
+               r13_7(ctx, counts)]
     # process-wide state is written only by the reviewed inventory (no new caches)
     from .c19_global import r19_5 as _r19_5
     _state = _r19_5(ctx, counts, lambda f: f.module.name.startswith('elementpath.regex'), 2)
